@@ -303,7 +303,7 @@ def bfs_expand(task):
     B = crop.num_batches
     out = {"hist": hist, "succ": []}
     if not hist:
-        out["init_key"] = fsseam.tree_hash(d)
+        out["init_key"] = "%s|False" % fsseam.tree_hash(d)
     for n, ev in enumerate(bfs_events(B, tier)):
         if n:
             crop = build(hist)
@@ -311,7 +311,10 @@ def bfs_expand(task):
         kname = "C04|bfs|%s|%s" % (cfg["kind"], ev[0])
         try:
             apply(crop, ev)
-            keyh = fsseam.tree_hash(d)
+            # (state = the crop on disk + whether the long-lived Crop object
+            # took part, since it may carry hidden state)
+            keyh = "%s|%s" % (fsseam.tree_hash(d), any(
+                e[0] != "fgrow" for e in hist + [ev]))
             fresh = xyz.Crop(name=NAME, parent_dir=d)
             if fresh.is_ready_to_reap():
                 snap = fsseam.snapshot(d)
